@@ -4,6 +4,7 @@ import (
 	"encoding/json"
 	"flag"
 	"fmt"
+	"hash/fnv"
 	"os"
 	"os/exec"
 	"path/filepath"
@@ -402,7 +403,9 @@ func runCheck(repo, prop, tier string, seed, workers int, only string) int {
 	}
 	nCover := 0
 	for _, c := range cases {
-		if nCover < 6 || tier == "thorough" {
+		// translator self-test witnesses are always replayed: the native run
+		// has to reach the same (checksum-bearing) label
+		if nCover < 6 || tier == "thorough" || strings.HasPrefix(c.Expect, "self-test ") {
 			toReplay = append(toReplay, c)
 			nCover++
 		}
@@ -572,7 +575,10 @@ func sanitize(s string) string {
 	}
 	r := sb.String()
 	if len(r) > 40 {
-		r = r[:40]
+		// keep ids of long labels distinct
+		h := fnv.New32a()
+		h.Write([]byte(s))
+		r = fmt.Sprintf("%s_%08x", r[:40], h.Sum32())
 	}
 	return r
 }
@@ -757,7 +763,16 @@ func replayAll(prog *interp.Program, pool *interp.Pool, repo, vd, prop string, c
 						mine++
 					}
 				}
-				good = r.Status == "ok" && mine == 0
+				reached := false
+				for _, l := range r.Covered {
+					if l == c.Expect {
+						reached = true
+					}
+				}
+				// the real build must reach the same cover point on the witness
+				// (an assumption about an input read after it may fail on its
+				// default value)
+				good = reached && mine == 0 && (r.Status == "ok" || r.Status == "assume-failed")
 			case c.Kind == "assert":
 				for _, l := range r.Failed {
 					if l == c.Expect {
@@ -781,10 +796,11 @@ func replayAll(prog *interp.Program, pool *interp.Pool, repo, vd, prop string, c
 }
 
 type nativeResult struct {
-	ID     string   `json:"id"`
-	Status string   `json:"status"` // ok | assume-failed | panic
-	Failed []string `json:"failed"`
-	Msg    string   `json:"msg"`
+	ID      string   `json:"id"`
+	Status  string   `json:"status"` // ok | assume-failed | panic
+	Failed  []string `json:"failed"`
+	Covered []string `json:"covered"`
+	Msg     string   `json:"msg"`
 }
 
 func nativeReplay(prog *interp.Program, repo, vd, prop string, cases []replayCase) (map[string]nativeResult, error) {
@@ -848,7 +864,7 @@ func nativeReplay(prog *interp.Program, repo, vd, prop string, cases []replayCas
 		cmd := exec.Command("go", "test", "-tags", "verif", "-vet=off", "-count=1", "-timeout", "180s", "-run", "^TestVerifReplay$", "-overlay", ovPath, "./"+rel)
 		cmd.Dir = repo
 		cmd.Env = append(os.Environ(), "GOFLAGS=-mod=mod", "GOPROXY=off", "GOSUMDB=off", "GOTOOLCHAIN=local",
-			"VERIF_REPLAY_CASES="+casesPath, "VERIF_REPLAY_OUT="+outPath)
+			"VERIF_REPLAY_CASES="+casesPath, "VERIF_REPLAY_OUT="+outPath, "VERIF_REPO_ROOT="+repo)
 		outb, err := runWithTimeout(cmd, 5*time.Minute)
 		data, rerr := os.ReadFile(outPath)
 		if rerr != nil {
@@ -905,6 +921,7 @@ type verifResult struct {
 	ID     string   ` + "`json:\"id\"`" + `
 	Status string   ` + "`json:\"status\"`" + `
 	Failed []string ` + "`json:\"failed\"`" + `
+	Covered []string ` + "`json:\"covered\"`" + `
 	Msg    string   ` + "`json:\"msg\"`" + `
 }
 
@@ -917,8 +934,10 @@ func verifRunCase(c verifCase) (res verifResult) {
 	}
 	verifVarCtr = map[string]int{}
 	verifFailed = nil
+	verifCovered = nil
 	defer func() {
 		res.Failed = verifFailed
+		res.Covered = verifCovered
 		if r := recover(); r != nil {
 			if _, ok := r.(verifAssumeFailed); ok {
 				res.Status = "assume-failed"
